@@ -881,16 +881,15 @@ class ExcelCompiler:
             self.log.debug(f"Evaluating: {cell_range.address}, {cell_range.python_code}")
             if cell_range.address.is_unbounded_range:
                 bounded_addr = str(self.eval(cell_range))
-                bounded_addr_cell = self.cell_map.get(bounded_addr)
-                if bounded_addr_cell.value is None:
-                    try:
-                        self._evaluate_range(bounded_addr)
-                    except Exception:
-                        if self.cycles:
-                            # the calculation of the reference is abandoned
-                            cell_range.wip = False
-                        raise
-                data = bounded_addr_cell.value
+                try:
+                    data = self._evaluate_range(bounded_addr)
+                except Exception:
+                    if self.cycles:
+                        # the calculation of the reference is abandoned
+                        cell_range.wip = False
+                    raise
+                # resolved to a single empty cell: calculated, but without a value
+                cell_range.value_unknown = data is None
 
             elif cell_range.formula is None:
                 data = tuple(
